@@ -34,6 +34,42 @@ func genC12(t *rapid.T) snapCase {
 	c.Names = genNames(t, false)
 	c.Ops = genOps(t, 25, map[int]int{opJoin: 6, opLeave: 2, opFailed: 2, opUpdate: 1, opReap: 1, opUser: 2,
 		opQuery: 2, opWitness: 2, opTick: 1, opAdvance: 2})
+	// NoTail: no fixed epilogue of changes after the history. The fixed epilogue
+	// starts with a member join and contains clock ticks, each of which by itself
+	// gives the snapshotter a fresh occasion to notice the damage and repair the
+	// whole file; without it, what the rest of the generated history does after
+	// the fault (possibly only user events, or only a clock witness picked up at
+	// shutdown) is all there is.
+	c.NoTail = rapid.Bool().Draw(t, "no-tail")
+	// one-kind endings: after some point the history makes only one kind of
+	// change (only user events and queries with rising times; only clock
+	// witnesses and ticks; only member events), so that for the faults near that
+	// point "the later changes" are of that one kind and nothing else comes to
+	// the rescue
+	if cls := rapid.IntRange(0, 4).Draw(t, "ending"); cls >= 1 && cls <= 3 {
+		var hi uint64 = 60
+		for _, op := range c.Ops {
+			if (op.K == opUser || op.K == opQuery || op.K == opWitness) && op.V > hi && op.V < 1<<62 {
+				hi = op.V
+			}
+		}
+		n := rapid.IntRange(1, 5).Draw(t, "ending-len")
+		if rapid.Bool().Draw(t, "ending-after-advance") {
+			c.Ops = append(c.Ops, hOp{K: opAdvance, V: 501})
+		}
+		for i := 0; i < n; i++ {
+			hi += uint64(rapid.IntRange(1, 3).Draw(t, "rise"))
+			switch cls {
+			case 1:
+				c.Ops = append(c.Ops, hOp{K: rapid.SampledFrom([]int{opUser, opQuery}).Draw(t, "uq"), V: hi})
+			case 2:
+				c.Ops = append(c.Ops, hOp{K: rapid.SampledFrom([]int{opWitness, opWitness, opTick}).Draw(t, "wt"), V: hi})
+			case 3:
+				c.Ops = append(c.Ops, hOp{K: rapid.SampledFrom([]int{opJoin, opJoin, opFailed, opLeave}).Draw(t, "mem"),
+					M: rapid.IntRange(0, 7).Draw(t, "m"), A: rapid.IntRange(0, numAddrVariants-1).Draw(t, "a")})
+			}
+		}
+	}
 	return c
 }
 
@@ -41,6 +77,8 @@ type c12Result struct {
 	ops       int
 	failed    *opRec
 	inCompact bool
+	// history steps (incl. epilogue) that came after the step the fault hit
+	judgedAfter int
 }
 
 // runC12 runs the history with operation failAt failing (-1: none). It
@@ -105,7 +143,10 @@ func runC12(c *snapCase, failAt int, x *vkit.Ctx) (c12Result, bool) {
 	}
 
 	// --- after the fault has cleared: let the recovery interval pass, then change things
-	tailStart := r.step + 1
+	failStep := r.step // without a fault: nothing to judge but the tail
+	if res.failed != nil {
+		failStep = r.fs.failedStep
+	}
 	// No waiting: with a single transient fault the snapshotter's own recovery
 	// (the compaction tryAppend attempts on the first failing append) succeeds at
 	// once, so the very next changes have to be recorded; the 30 s interval only
@@ -123,6 +164,9 @@ func runC12(c *snapCase, failAt int, x *vkit.Ctx) (c12Result, bool) {
 		{K: opUser, V: r.maxEvent + 7},
 		{K: opTick},
 	}
+	if c.NoTail {
+		tail = nil
+	}
 	for _, op := range tail {
 		if !r.apply(op) {
 			x.Violationf("event-not-forwarded", "%s: tail step %d (%s): event not forwarded", desc(), r.step, opNames[op.K])
@@ -139,22 +183,45 @@ func runC12(c *snapCase, failAt int, x *vkit.Ctx) (c12Result, bool) {
 		return res, false
 	}
 	rec := readSnapshotter(r.snap)
+	// "Once the fault has cleared, later membership and clock changes are recorded
+	// again": the fault is one operation failing once, it has cleared when the
+	// history step it hit is over. Every change made in a LATER step (the rest of
+	// the generated history and the epilogue) has to show after the restart.
 	for name, st := range r.lastEvtStep {
-		if st < tailStart {
+		if st <= failStep {
 			continue
 		}
 		wantAddr, wantAlive := r.alive[name]
 		gotAddr, gotAlive := rec.Alive[name]
 		if wantAlive != gotAlive || wantAddr != gotAddr {
-			x.Violationf("change-after-fault-not-recorded", "%s: member %q changed after the fault window (alive=%v %s) but the restart sees alive=%v %s; files: %q",
-				desc(), name, wantAlive, wantAddr, gotAlive, gotAddr, r.fs.snapshotFilesLocked())
+			x.Violationf("change-after-fault-not-recorded", "%s in history step %d: member %q changed after that, in step %d (alive=%v %s), but the restart sees alive=%v %s; files: %q",
+				desc(), failStep, name, st, wantAlive, wantAddr, gotAlive, gotAddr, r.fs.snapshotFilesLocked())
 			return res, false
 		}
 	}
-	if rec.Clock != uint64(r.lc.Time())-1 || rec.Event != r.maxEvent || rec.Query != r.maxQuery {
+	type clk struct {
+		what      string
+		adv       int
+		want, got uint64
+	}
+	for _, k := range []clk{
+		{"member clock", r.clockAdvStep, uint64(r.lc.Time()) - 1, rec.Clock},
+		{"event clock", r.eventAdvStep, r.maxEvent, rec.Event},
+		{"query clock", r.queryAdvStep, r.maxQuery, rec.Query},
+	} {
+		if k.adv > failStep && k.got != k.want {
+			x.Violationf("clock-after-fault-not-recorded", "%s in history step %d: the %s last advanced after that, in step %d, to %d, but the restart sees %d; files: %q",
+				desc(), failStep, k.what, k.adv, k.want, k.got, r.fs.snapshotFilesLocked())
+			return res, false
+		}
+	}
+	if !c.NoTail && (rec.Clock != uint64(r.lc.Time())-1 || rec.Event != r.maxEvent || rec.Query != r.maxQuery) {
 		x.Violationf("clock-after-fault-not-recorded", "%s: clocks advanced after the fault window to (%d,%d,%d) but the restart sees (%d,%d,%d); files: %q",
 			desc(), uint64(r.lc.Time())-1, r.maxEvent, r.maxQuery, rec.Clock, rec.Event, rec.Query, r.fs.snapshotFilesLocked())
 		return res, false
+	}
+	if res.failed != nil {
+		res.judgedAfter = r.step - failStep
 	}
 	return res, true
 }
@@ -177,6 +244,16 @@ func bodyC12(c snapCase, x *vkit.Ctx) {
 			if res.inCompact {
 				nt++
 				kinds["in-compaction"]++
+			}
+			if c.NoTail {
+				switch {
+				case res.judgedAfter == 0:
+					kinds["no-tail:nothing-after"]++
+				case res.judgedAfter <= 3:
+					kinds["no-tail:1-3-steps-after"]++
+				default:
+					kinds["no-tail:4+-steps-after"]++
+				}
 			}
 		}
 	}
